@@ -66,7 +66,25 @@ impl ContentPack {
 
     fn get_cluster(&self, cluster_index: ClusterIdx) -> Result<Arc<Cluster>> {
         let mut cache = self.cluster_cache.lock().unwrap();
-        let cached = cache.try_get_or_insert(cluster_index, || self._get_cluster(cluster_index))?;
+        #[cfg(jubako_verif)]
+        let id = self as *const Self as usize;
+        #[cfg(jubako_verif)]
+        crate::verif_api::event(
+            crate::verif_api::ev::CACHE_GET,
+            id,
+            cluster_index.into_u32() as usize,
+            0,
+        );
+        let cached = cache.try_get_or_insert(cluster_index, || {
+            #[cfg(jubako_verif)]
+            crate::verif_api::event(
+                crate::verif_api::ev::CACHE_MISS,
+                id,
+                cluster_index.into_u32() as usize,
+                0,
+            );
+            self._get_cluster(cluster_index)
+        })?;
         Ok(cached.clone())
     }
 
